@@ -69,6 +69,10 @@ theorem own_updPending {seen : List CTx} {txs : List CTx} (hsub : ∀ t ∈ txs,
         · exact h1
         · exact h2 x hx
 
+/-- what the TRANSLATED is_data_equal compares, on the model's fields -/
+theorem dataEq_iff (a b : Htlc) : dataEq a b = true ↔ a.offered = b.offered ∧ a.amtMsat = b.amtMsat ∧ a.cltv = b.cltv := by
+  simp [dataEq, Gen.isDataEqual, and_assoc]
+
 theorem renegList_eq : ∀ (alt cur : List Htlc), alt.length = cur.length →
     (List.zipWith dataEq alt cur).all id = true → renegList alt cur = alt
   | [], [], _, _ => rfl
@@ -82,8 +86,8 @@ theorem renegList_eq : ∀ (alt cur : List Htlc), alt.length = cur.length →
     have hhead : (if Gen.renegIndexFromAlternative then { h with outIdx := a.outIdx } else h) = a := by
       have hd1 := hd.1
       cases a; cases h
-      simp only [dataEq, Bool.and_eq_true, beq_iff_eq] at hd1
-      obtain ⟨⟨h1, h2⟩, h3⟩ := hd1
+      simp only [dataEq_iff] at hd1
+      obtain ⟨h1, h2, h3⟩ := hd1
       simp [Gen.renegIndexFromAlternative, h1, h2, h3]
     rw [hhead]
 
@@ -98,6 +102,9 @@ theorem step_inv {seen : List CTx} {m m' : Mon} (op : Op) (hi : Inv seen m) (hs 
     have hsub : ∀ t ∈ txs, t ∈ seen ++ seenTxs [Op.commit txs] := by
       intro t ht; simp [seenTxs, ht]
     simp only [step, updateCommitmentData] at hs
+    split at hs
+    · simp at hs
+    simp only [storeCommitmentData] at hs
     split at hs
     · simp at hs
     · cases hl : m.locked.update txs Gen.lockedKey Gen.lockedKey Gen.lockedSrc with
@@ -182,5 +189,113 @@ theorem mem_of_lookup {α : Type} (k : Nat) : ∀ (l : List (Nat × α)) (v : α
     · have : (k == k') = false := by simpa using hk
       simp only [this] at h
       exact List.mem_cons_of_mem _ (mem_of_lookup k rest v h)
+
+/-! ### verify_matching_commitment_transactions: all versions of one counterparty commitment agree (round 6) -/
+
+/-- what `is_data_equal` compares -/
+def hkey (h : Htlc) : Bool × Nat × Nat := (h.offered, h.amtMsat, h.cltv)
+
+theorem zip_dataEq_iff : ∀ (l1 l2 : List Htlc), l1.length = l2.length →
+    ((List.zipWith dataEq l1 l2).all id = true ↔ l1.map hkey = l2.map hkey)
+  | [], [], _ => by simp
+  | [], _ :: _, h => by simp at h
+  | _ :: _, [], h => by simp at h
+  | a :: l1, b :: l2, h => by
+    have ih := zip_dataEq_iff l1 l2 (by simpa using h)
+    simp only [List.zipWith_cons_cons, List.all_cons, Bool.and_eq_true, id, List.map_cons, List.cons.injEq, ih, dataEq_iff, hkey,
+      Prod.mk.injEq]
+
+/-- two versions (one per funding scope) of the same counterparty commitment: same commitment number, same per-commitment point —
+    so the ONE secret of that number revokes both —, same feerate, and the same non-dust HTLCs in the same order -/
+def Agree (a b : CTx) : Prop :=
+  a.num = b.num ∧ a.point = b.point ∧ a.feerate = b.feerate ∧ a.htlcs.map hkey = b.htlcs.map hkey
+
+theorem Agree.refl (a : CTx) : Agree a a := ⟨rfl, rfl, rfl, rfl⟩
+theorem Agree.symm {a b : CTx} (h : Agree a b) : Agree b a := ⟨h.1.symm, h.2.1.symm, h.2.2.1.symm, h.2.2.2.symm⟩
+theorem Agree.trans {a b c : CTx} (h1 : Agree a b) (h2 : Agree b c) : Agree a c :=
+  ⟨h1.1.trans h2.1, h1.2.1.trans h2.2.1, h1.2.2.1.trans h2.2.2.1, h1.2.2.2.trans h2.2.2.2⟩
+
+/-- needs EVERY comparison of the translated `Gen.versionMismatch`: a dropped / weakened one leaves a case open -/
+theorem versionMismatch_none {a b : CTx} (h : versionMismatch a b = none) : Agree a b := by
+  unfold versionMismatch Gen.versionMismatch at h
+  by_cases h1 : a.num = b.num
+  · by_cases h2 : a.point = b.point
+    · by_cases h3 : a.feerate = b.feerate
+      · by_cases h4 : a.htlcs.length = b.htlcs.length
+        · by_cases h5 : htlcsDataEqual a b = true
+          · exact ⟨h1, h2, h3, (zip_dataEq_iff _ _ h4).mp h5⟩
+          · simp [h1, h2, h3, h4, h5] at h
+        · simp [h1, h2, h3, h4] at h
+      · simp [h1, h2, h3] at h
+    · simp [h1, h2] at h
+  · simp [h1] at h
+
+theorem verifyLoop_agree (ref : CTx) : ∀ (ss : List Scope) (ts : List CTx) (o : CTx), ss.length = ts.length → Agree o ref →
+    verifyLoop (some o) ss ts = none → ∀ t ∈ ts, Agree t ref
+  | [], [], _, _, _, _ => by simp
+  | [], _ :: _, _, h, _, _ => by simp at h
+  | _ :: _, [], _, h, _, _ => by simp at h
+  | s :: ss, t :: ts, o, hl, ho, hv => by
+    unfold verifyLoop at hv
+    by_cases hf : (t.funding != s.funding) = true
+    · simp [hf] at hv
+    · simp only [hf, Bool.false_eq_true, ↓reduceIte, Option.bind_some] at hv
+      cases hm : versionMismatch t o with
+      | some e => simp [hm] at hv
+      | none =>
+        simp only [hm] at hv
+        have hto : Agree t ref := (versionMismatch_none hm).trans ho
+        -- every transaction is compared with its predecessor (TRANSLATED: `other_commitment_tx = Some(commitment_tx)`)
+        simp only [Gen.verifyOtherIsPredecessor, ↓reduceIte] at hv
+        have ih := verifyLoop_agree ref ss ts t (by simpa using hl) hto hv
+        intro x hx
+        rcases List.mem_cons.mp hx with rfl | hx
+        · exact hto
+        · exact ih x hx
+
+theorem verifyMatching_agree {m : Mon} {txs : List CTx} (h : verifyMatching m txs = none) :
+    ∀ a ∈ txs, ∀ b ∈ txs, Agree a b := by
+  unfold verifyMatching at h
+  split at h
+  · simp at h
+  · rename_i hlen
+    cases txs with
+    | nil => intro a ha; simp at ha
+    | cons t0 rest =>
+      have hl : m.pending.length = rest.length := by simpa using hlen
+      unfold verifyLoop at h
+      by_cases hf : (t0.funding != m.locked.funding) = true
+      · simp [hf] at h
+      · simp only [hf, Bool.false_eq_true, ↓reduceIte, Option.bind_none, Gen.verifyOtherIsPredecessor] at h
+        have hall : ∀ t ∈ t0 :: rest, Agree t t0 := by
+          intro t ht
+          rcases List.mem_cons.mp ht with rfl | ht
+          · exact Agree.refl _
+          · exact verifyLoop_agree t0 m.pending rest t0 hl (Agree.refl _) h t ht
+        intro a ha b hb
+        exact (hall a ha).trans (hall b hb).symm
+
+theorem run_commits_agree : ∀ (ops : List Op) (m m' : Mon), run m ops = some m' →
+    ∀ txs ∈ seenCommits ops, ∀ a ∈ txs, ∀ b ∈ txs, Agree a b
+  | [], _, _, _ => by simp [seenCommits]
+  | op :: rest, m, m', hr => by
+    simp only [run] at hr
+    cases hs : step m op with
+    | none => simp [hs] at hr
+    | some m1 =>
+      simp only [hs, Option.bind_some] at hr
+      have ih := run_commits_agree rest m1 m' hr
+      cases op with
+      | commit txs =>
+        intro t ht
+        simp only [seenCommits, List.mem_cons] at ht
+        rcases ht with rfl | ht
+        · simp only [step, updateCommitmentData] at hs
+          cases hv : verifyMatching m t with
+          | some e => simp [hv] at hs
+          | none => exact verifyMatching_agree hv
+        · exact ih t ht
+      | reneg alt => simpa [seenCommits] using ih
+      | promote f => simpa [seenCommits] using ih
 
 end Ldk.ScopeData
